@@ -166,8 +166,16 @@ func (s *ScanMethod) ProcessPacketData(data []byte, _ *gopacket.CaptureInfo) (er
 	return
 }
 
+// validPacket reports whether exactly the header chain Ethernet, IPv4, TCP
+// (or IPv4, TCP in VPN mode) was decoded: only then all rcv* layers
+// describe the current packet
 func validPacket(decoded []gopacket.LayerType) bool {
-	return len(decoded) == 3 || (len(decoded) == 2 && decoded[0] == layers.LayerTypeIPv4)
+	if len(decoded) == 3 {
+		return decoded[0] == layers.LayerTypeEthernet &&
+			decoded[1] == layers.LayerTypeIPv4 && decoded[2] == layers.LayerTypeTCP
+	}
+	return len(decoded) == 2 &&
+		decoded[0] == layers.LayerTypeIPv4 && decoded[1] == layers.LayerTypeTCP
 }
 
 type PacketFiller struct {
